@@ -31,7 +31,13 @@ RULE = ("static: one evaluation = the regenerated call graph of the whole workin
         "processes), c19.hist (histories: MakeGAB with moduli of 1..4096 bits, g in {0, 1, -1, 2, 3, 7, int32 extremes}, "
         "g_a = 0 / 1 / > dh_prime, nonce draws in between, THEN ordinary draws with crypto/rand.Reader wrapped by a counting "
         "reader: bytes read from the OS source per draw >= width of the secret, values pairwise different, largest value "
-        "within 24 bits of the width); distinct = distinct operation lines")
+        "within 24 bits of the width), c19.peer (the secret drawn WITH values the peer chose: account.password.secure_random absent / "
+        "0, 1, 2, 255, 256, 257, 1024.. bytes all-zero, all-ones, random for the SRP exponent - bytes read, A = g^a not among the first "
+        "2^16 powers of g, two draws differ, and with crypto/rand.Reader replaced by a fixed stream A changes when the first / last / "
+        "a middle one of the consumed bytes is inverted; MakeGAB with unusual groups - bytes read, width, repetition of b), c19.retry "
+        "(a scripted key-exchange server answers set_client_DH_params with well-formed dh_gen_retry / dh_gen_fail / dh_gen_ok: every "
+        "g_b the real client sends has >= 256 bytes read from the OS source since the server's previous answer and is no g^k multiple, "
+        "|k| <= 16, of an earlier one); distinct = distinct operation lines")
 
 C19MOD = os.path.join(vlib.VERIF, "harness-c19")
 C19BIN = os.path.join(vlib.BUILD, "c19graph")
